@@ -5,3 +5,4 @@ CONSTANTS
   MaxVals = 4
   MaxSteps = 8
   MaxDepth = 2
+  EmitAll = TRUE
